@@ -41,15 +41,29 @@ TCol == /\ l <= Len(Trace) /\ Trace[l].ev = "Col"
         /\ LET o == Trace[l].obs
                \* MaxScale < -10 is outside the documented range: refusing the configuration
                \* (shape "rejected") conforms, and so does treating it as -10 (EffMax)
-               refused == cfg.kind = "expo" /\ cfg.maxscale < MinScale /\ o.shape = "rejected"
-               bad == IF refused THEN {}
+               \* (the same for every parameter outside its documented range, whatever the route: ExpoOutOfRange)
+               refused == cfg.kind = "expo" /\ ExpoOutOfRange(cfg.maxscale, cfg.maxsize) /\ o.shape = "rejected"
+               \* explicit boundaries: the list AS CONFIGURED (any order; cfg.bounds in the older families, which only
+               \* configure increasing lists), the route it took, the boundaries the reader falls back to
+               cb == IF "cbounds" \in DOMAIN cfg THEN cfg.cbounds ELSE cfg.bounds
+               fb == IF "fallback" \in DOMAIN cfg THEN cfg.fallback ELSE <<-1>>
+               \* a list that is not strictly increasing may be refused (nothing reported / creation error)
+               may == MayRefuse(IF "route" \in DOMAIN cfg THEN cfg.route ELSE "view", cb)
+               refusedL == cfg.kind = "expl" /\ may /\ o.shape = "rejected"
+               bad == IF refused \/ refusedL THEN {}
+                      ELSE IF cfg.kind = "expo" /\ cfg.maxsize <= 0    \* accepted although no bucket may be held
+                      THEN (IF o.present /\ Len(o.pos) + Len(o.neg) > 0 THEN {"too-many-buckets"} ELSE {})
                       ELSE IF cfg.kind = "expo"
                       THEN ExpoClauses(o, H, cfg.maxscale, cfg.maxsize, prev, cfg.quant, cfg.nosum, cfg.nominmax)
+                      ELSE IF "bounds" \in DOMAIN o
+                      THEN HistClausesL(o, H, cb, fb, may, cfg.quant, cfg.nosum, cfg.nominmax)
                       ELSE HistClauses(o, H, cfg.bounds, cfg.quant, cfg.nosum, cfg.nominmax)
-               shape == IF o.shape # "ok" /\ ~refused THEN {"shape"} ELSE {}
+               shape == IF o.shape # "ok" /\ ~refused /\ ~refusedL THEN {"shape"} ELSE {}
            IN /\ (bad \cup shape # {}) =>
                     Viol([line |-> l, sc |-> Trace[l].sc, kind |-> cfg.kind, why |-> bad \cup shape,
                           dest |-> Trace[l].dest,
+                          route |-> IF "route" \in DOMAIN cfg THEN cfg.route ELSE "view",
+                          list |-> IF cfg.kind = "expl" THEN ListClass(cb) ELSE "",
                           dropped |-> IF cfg.kind = "expo" THEN Len(H) - Len(Keep(H, cfg.maxsize)) ELSE 0,
                           excess |-> IF cfg.kind = "expo" /\ o.present
                                      THEN o.count - (o.zero + SumSeq(o.pos) + SumSeq(o.neg)) ELSE 0,
